@@ -179,6 +179,9 @@ func checkC03(c *core.Check) {
 	var groups []pGroup
 	alpha := []string{"a", "b", "z", ""}
 	methods := []string{"GET", "POST", "DELETE"}
+	// further undeclared methods, one per request path in turn (to the model they are all "a method no operation has";
+	// an implementation may be tempted to relate them to declared ones: HEAD to GET, case folding, ...)
+	oddMethods := []string{"HEAD", "get", "PATCH", "OPTIONS", "PUT", "TRACE", "Post", "PURGE", "CONNECT"}
 	reqPaths := allPaths(alpha, depth)
 	caseN := 0
 	newCase := func() string { caseN++; return fmt.Sprintf("c%d", caseN) }
@@ -215,6 +218,9 @@ func checkC03(c *core.Check) {
 						path += "/" + s
 					}
 					g.Cases = append(g.Cases, mkReq(newCase(), meth, path, nil, a))
+					if meth == "GET" {
+						g.Cases = append(g.Cases, mkReq(newCase(), oddMethods[caseN%len(oddMethods)], path, nil, a))
+					}
 				}
 			}
 		}
@@ -258,6 +264,9 @@ func checkC03(c *core.Check) {
 							path += "/" + sg
 						}
 						g.Cases = append(g.Cases, mkReq(newCase(), meth, path, nil, a))
+						if meth == "GET" {
+							g.Cases = append(g.Cases, mkReq(newCase(), oddMethods[caseN%len(oddMethods)], path, nil, a))
+						}
 					}
 				}
 				near := []string{"", "*", "/", nf, nf + "/", nf + "x/a", nf + "/spec.json", "/spec.json", nf + "//a", "/a", "/a/b"}
